@@ -18,7 +18,7 @@ Template directives (each on its own line):
        //@loop <n>          invariant/decreases text for the n-th loop (source order, 1-based)
        //@closure <n>       replacement header for the n-th closure `|...|` (spec-only return + ensures)
        //@after <snippet>   ghost text inserted after the first statement containing <snippet>
-       //@before <snippet>  ghost text inserted before the first statement containing <snippet>
+       //@before <snippet>  ghost text inserted before the first statement containing <snippet> (`^` = the start of the body)
   //@end
 
 Only spec text can be added to an extracted body; the assembler re-derives the body without the
@@ -581,6 +581,9 @@ class Assembler:
                 if mo:
                     hits = [h.start() for h in re.finditer(r'\b' + mo.group(1) + r'\b', m)]
                     p = hits[int(mo.group(2)) - 1] if int(mo.group(2)) <= len(hits) else -1
+                elif snippet == '^':
+                    # the start of the body (for ghost bindings that must be in scope everywhere, wherever the statements move)
+                    p = body.index('{') + 1
                 else:
                     p = body.find(snippet)
                 if p < 0:
